@@ -243,7 +243,7 @@ def mc_famimpl(run, tier, seed, fams, module="MC_FamImpl", mult=(4, 3), what=Non
             run.states += r["distinct"]
             info["corpus"] = {"first": corpus[0], "last": corpus[1], "distinct_states": r["distinct"]}
     run.extra[(cfg or module).replace(".cfg", "").lower()] = {"families": info,
-                                 "invariant": what or "Inv_FamRefines (Obl_Legal, Obl_SemiValidate, Obl_Make, Obl_Undo)",
+                                 "invariant": what or "Inv_FamRefines (Obl_Legal, Obl_SemiValidate, Obl_Outcome, Obl_TryFrom, Obl_Make, Obl_Undo)",
                                  "wall_s": round(time.time() - t0, 1)}
     log(f"[mc] {module} {info} in {time.time() - t0:.1f}s")
 
@@ -956,6 +956,10 @@ def plan_generic(prop, tier, seed):
             # 20 480 (source, destination, promotion) triples of each position
             mc_famimpl(run, tier, seed, ["EPX", "EPEVADE", "PROMO", "CASTLE", "PIN"], module="MC_SanImpl", cfg="MC_UciImpl.cfg",
                        mult=(30, 8), what="Inv_UciRefines (Obl_Uci)", corpus=(20, 32) if tier == "quick" else (1, 122))
+    if prop == "C11":
+        # the validator as the code does it (ImplTryFrom: normalisations first, tests in code order) against
+        # Conditions / Normalise, on the disturbed raw boards of the RAW family (stride 1 = all of them)
+        mc_famimpl(run, tier, seed, ["RAW"], mult=(1, 1), what="Inv_FamRefines on RAW (Obl_TryFrom)")
     if prop in ("C13", "C14", "C17"):
         chain_behaviours(run, prop, tier, seed, binary)
         mc_chain(run, tier)
